@@ -31,26 +31,18 @@ Theorem C25_open_marks : forall its id n v,
                     forallb (fun it => negb (ends id it)) l2 = true).
 Proof. exact open_spec. Qed.
 
-(* get_marks(i) is the pointwise marking of the i-th visible character ... *)
-Theorem C25_get_marks_eq_pointwise : forall its i,
-  (i < length (marking its []))%nat ->
-  get_marks its i = without_unmarks (marks_at_elem its i).
+(* get_marks(p), p a text index in the units of the document's encoding (the widths are whatever the
+   characters have: code points, UTF-8 or UTF-16 units), is the pointwise marking at p ... *)
+Theorem C25_get_marks_eq_pointwise : forall its p,
+  p < total_w (marking its []) ->
+  get_marks its p = without_unmarks (marks_at_pos its p).
 Proof. exact get_marks_eq_pointwise. Qed.
 
-(* ... which is the marking at text position i when every character is one unit wide *)
-Theorem C25_get_marks_eq_pointwise_unit : forall its i,
-  Forall (fun e => p_w e = 1) (marking its []) -> (i < length (marking its []))%nat ->
-  get_marks its i = without_unmarks (marks_at_pos its (N.of_nat i)).
-Proof. exact get_marks_eq_pointwise_unit. Qed.
-
-(* the known finding: read as a TEXT index (the unit of marks(), spans(), mark(), splice_text) get_marks
-   disagrees with the other readers as soon as a character is wider than one unit *)
-Theorem C25_get_marks_text_index_refuted :
-  exists (e : enc) (ops : list op) (obj : opid) (i : nat),
-    let its := text_view e ops obj in
-    marks its = [(2, 3, [98; 111; 108; 100], SBool true)] /\
-    get_marks its i <> without_unmarks (marks_at_pos its (N.of_nat i)).
-Proof. exact get_marks_text_index_refuted. Qed.
+(* ... and past the end of the text it reports the marks still open there *)
+Theorem C25_get_marks_past_end : forall its p,
+  total_w (marking its []) <= p ->
+  get_marks its p = without_unmarks (current (final_open its)).
+Proof. exact get_marks_past_end. Qed.
 
 (* marks() — the mirror of calculate_marks_slow and MarkAccumulator (run grouping, merging of adjacent
    equal ranges, null ranges dropped): a text position lies in a reported range of name n with value v
@@ -81,7 +73,7 @@ Theorem C25_expand_single_mark_start_partial : forall pre b xb n v c w s rest q 
   Forall pos_char pre -> 0 < w ->
   NoDup (map item_id (pre ++ [IBegin b xb n v])) -> ~ In head_id (map item_id (pre ++ [IBegin b xb n v])) ->
   let its := pre ++ IBegin b xb n v :: IChar c true w s :: rest in
-  exists r, anchor (cw_sum pre) its = Some (r, cw_sum pre) /\
+  exists r, anchor (items_len pre) its = Some (r, items_len pre) /\
     exists l1 l2, place_item r (IChar q true wq sq) its = l1 ++ IChar q true wq sq :: l2 /\
                   current (final_open l1) = if xb then [(n, v)] else [].
 Proof. exact expand_single_mark_start. Qed.
@@ -93,7 +85,7 @@ Theorem C25_expand_single_mark_end_partial : forall pre b xb n v mid e xe post q
   NoDup (map item_id (pre ++ IBegin b xb n v :: mid ++ [IEnd e xe])) ->
   ~ In head_id (map item_id (pre ++ IBegin b xb n v :: mid ++ [IEnd e xe])) ->
   let its := pre ++ IBegin b xb n v :: mid ++ IEnd e xe :: post in
-  exists r, anchor (cw_sum pre + cw_sum mid) its = Some (r, cw_sum pre + cw_sum mid) /\
+  exists r, anchor (items_len pre + items_len mid) its = Some (r, items_len pre + items_len mid) /\
     exists l1 l2, place_item r (IChar q true wq sq) its = l1 ++ IChar q true wq sq :: l2 /\
                   current (final_open l1) = if xe then [(n, v)] else [].
 Proof. exact expand_single_mark_end. Qed.
@@ -103,6 +95,28 @@ Theorem C25_marking_at_char : forall l1 st id w s l2,
   marking (l1 ++ IChar id true w s :: l2) st =
   marking l1 st ++ mkP id w s (current (fold_left step_open l1 st)) :: marking l2 (fold_left step_open l1 st).
 Proof. exact marking_app. Qed.
+
+(* a mark / unmark with an anchor past the text is rejected before anything is inserted: no op *)
+Theorem C25_mark_out_of_range_no_op : forall e t obj start end_ n v x,
+  (start =? end_) && x_none x = false ->
+  items_len (text_items e t obj) < start \/ items_len (text_items e t obj) < end_ ->
+  mark_text e t obj start end_ n v x = (t, Some EInvalidIndex).
+Proof. exact mark_out_of_range_no_op. Qed.
+
+(* the insert query finds an anchor for every index up to the length of the text (any marks, tombstones,
+   zero-width elements) ... *)
+Theorem C25_anchor_total : forall target its,
+  target <= items_len its -> exists r i, anchor target its = Some (r, i).
+Proof. exact anchor_total. Qed.
+
+(* ... so a mark that returns an error leaves the transaction as it was.  Partial: assumes that inserting
+   the (zero-width) begin op leaves the length of the text unchanged — checked by the correspondence
+   harness on every transaction, not proved over [items_of]. *)
+Theorem C25_failed_mark_no_op_partial : forall e t obj start end_ n v x t' er,
+  (forall t1 b, do_insert_m e t obj start (AMarkBegin (x_before x) n v) = EOk (t1, b) ->
+                items_len (text_items e t1 obj) = items_len (text_items e t obj)) ->
+  mark_text e t obj start end_ n v x = (t', Some er) -> t' = t.
+Proof. exact failed_mark_no_op_partial. Qed.
 
 (* convergence: every reader is a function of the SET of operations *)
 Theorem C25_marks_converge : forall e obj ops1 ops2,
@@ -135,7 +149,8 @@ Definition ex_ops : list op :=
 Example C25_readers_nonvacuous :
   let its := text_view EncU8 ex_ops ex_t in
   marks its = [(0, 2, ex_bold, SInt 7)] /\
-  map (get_marks its) [0; 1; 2; 3; 4]%nat = [[(ex_bold, SInt 7)]; [(ex_bold, SInt 7)]; []; []; []] /\
+  map (get_marks its) [0; 1; 2; 3; 4; 5] = [[(ex_bold, SInt 7)]; [(ex_bold, SInt 7)]; []; []; []; []] /\
+  total_w (marking its []) = 5 /\
   spans its = [([97; 98], [(ex_bold, SInt 7)]); ([233; 99], [])] /\
   map (marks_at_pos its) [0; 1; 2; 3; 4] =
     [[(ex_bold, SInt 7)]; [(ex_bold, SInt 7)]; [(ex_bold, SNull)]; [(ex_bold, SNull)]; []] /\
@@ -173,4 +188,20 @@ Example C25_expand_items_nonvacuous :
   its = [IChar (2, ex_a1) true 1 [97]; IBegin (5, ex_a1) true ex_bold (SBool true); IChar (3, ex_a1) true 1 [98];
          IEnd (6, ex_a1) false; IChar (4, ex_a1) true 1 [99]] /\
   anchor 1 its = Some ((5, ex_a1), 1) /\ anchor 2 its = Some ((6, ex_a1), 2).
+Proof. repeat split; vm_compute; reflexivity. Qed.
+
+(* the two repaired defects on the model: e-acute, "a", "b" in UTF-8 with bold over [2,3): get_marks
+   answers at text index 2; a mark whose end lies past "hello" changes nothing *)
+Example C25_fixed_probes_nonvacuous :
+  let ops := [ mkOp (1, ex_a1) root_id (KMap [116]) false (AMake OText) [];
+               mkOp (2, ex_a1) ex_t (KSeq head_id) true (APut (SStr [233])) [];
+               mkOp (3, ex_a1) ex_t (KSeq (2, ex_a1)) true (APut (SStr [97])) [];
+               mkOp (4, ex_a1) ex_t (KSeq (3, ex_a1)) true (APut (SStr [98])) [] ] in
+  let t0 := begin_tx ops ex_a1 in
+  let t1 := fst (mark_text EncU8 t0 ex_t 2 3 ex_bold (SBool true) XNone) in
+  let its := text_view EncU8 (tx_all t1) ex_t in
+  marks its = [(2, 3, ex_bold, SBool true)] /\
+  map (get_marks its) [0; 1; 2; 3; 4] = [[]; []; [(ex_bold, SBool true)]; []; []] /\
+  mark_text EncU8 t0 ex_t 2 100 ex_bold (SBool true) XNone = (t0, Some EInvalidIndex) /\
+  mark_text EncU8 t0 ex_t 5 5 ex_bold SNull XBoth = (t0, Some EInvalidIndex).
 Proof. repeat split; vm_compute; reflexivity. Qed.
